@@ -421,6 +421,12 @@ func (e *seqEngine) Exec(op *Op) string {
 		if err != nil {
 			return "err"
 		}
+		if t, _ := strconv.Atoi(op.Arg("tear")); t > 0 {
+			// cut the legacy primary inside its last record
+			if fi, err := os.Stat(e.dataPath); err == nil && fi.Size() > int64(t) {
+				os.Truncate(e.dataPath, fi.Size()-int64(t))
+			}
+		}
 		e.lastBits = bits
 		strs := make([]string, len(offs))
 		for i, o := range offs {
